@@ -11,7 +11,7 @@ import re
 
 import templates as T
 import panic as PN
-from facts import tokens, fmt, short, walk
+from facts import tokens, fmt, short, walk, strip_sites
 
 CRATES = ["sciparse", "scion_stack"]
 
@@ -72,6 +72,7 @@ def entries(F):
 
 
 def run(F, R, tier, cfg):
+    asn_boundary_rule(F, R)
     fromstr, other, helpers = entries(F)
     R.floor("PANIC-entries", len(fromstr), ENTRY_FLOOR, "FromStr impls of address/identifier types")
     txt = []
@@ -87,6 +88,7 @@ def run(F, R, tier, cfg):
     classes = None
     PN.check_entries(F, R, "C15", ents, cfg, classes=classes)
     strip_rule(F, R)
+    split_both_rule(F, R, set(F.reachable(ents)))
 
 
 def strip_rule(F, R):
@@ -107,3 +109,131 @@ def strip_rule(F, R):
                (re.search(r"ops::index::Index(<.*>)?(>)?::index$", c.decl) and (c.selfty or "") == "str"):
                 n += 1
     R.extra["str_index_sites_in_address_modules"] = n
+
+
+ASN_DISPLAY = "<sciparse::scion::identifier::asn::Asn as core::fmt::Display>::fmt"
+ASN_FROMSTR = "<sciparse::scion::identifier::asn::Asn as core::str::traits::FromStr>::from_str"
+
+
+def _const_through_into(t):
+    t = PN.strip_casts(strip_sites(t))
+    while t[0] == "call" and re.search(r"::(into|from)$", t[1]) and len(t[2]) == 1:
+        t = PN.strip_casts(t[2][0])
+    return PN.const_eval(t)
+
+
+def _thresholds(F, p, value_pred):
+    """{T}: the function branches on `value <= T` (any of <, <=, >, >= against a constant, normalised) for a value
+    satisfying value_pred(tokens)"""
+    b = F.body(p)
+    out = set()
+    for g in sorted(b.live_blocks()):
+        t = b.term(g)
+        if t[0] != "switch":
+            continue
+        o = b.origin(t[1])
+        while o[0] == "un" and o[1] == "Not":
+            o = o[2]
+        if o[0] != "bin" or o[1] not in ("Lt", "Le", "Gt", "Ge"):
+            continue
+        for val, k, flip in ((o[2], o[3], False), (o[3], o[2], True)):
+            c = _const_through_into(k)
+            if c is None or not value_pred(tokens(val)):
+                continue
+            op = o[1] if not flip else {"Lt": "Gt", "Le": "Ge", "Gt": "Lt", "Ge": "Le"}[o[1]]
+            out.add({"Le": c, "Lt": c - 1, "Gt": c, "Ge": c - 1}[op])
+    return out
+
+
+def asn_boundary_rule(F, R):
+    """SIB-asn-boundary: Display prints an AS number in decimal exactly when it is <= T; FromStr accepts a decimal string
+    exactly when the number is <= T'.  Round trip needs T == T' (both 2^32 - 1): with T' < T the displayed form of the
+    boundary value is rejected, with T' > T a value has two accepted spellings outside the documented alternatives."""
+    if not (F.has_body(ASN_DISPLAY) and F.has_body(ASN_FROMSTR)):
+        R.anchor_missing(ASN_DISPLAY if not F.has_body(ASN_DISPLAY) else ASN_FROMSTR)
+        return
+    R.fn(ASN_DISPLAY)
+    R.fn(ASN_FROMSTR)
+    td = _thresholds(F, ASN_DISPLAY, lambda tk: any(t.endswith("Asn::to_u64") for t in tk) or "param:1" in tk)
+    tp = _thresholds(F, ASN_FROMSTR, lambda tk: any(t.startswith("fn:") and t.endswith("::from_str") for t in tk))
+    ok = len(td) == 1 and td == tp and td == {2 ** 32 - 1}
+    R.ob("SIB-asn-boundary", "decimal notation boundary: Display <= %s, FromStr <= %s" % (sorted(td), sorted(tp)), ok, True,
+         {"rule": "SIB-asn-boundary", "display_threshold": sorted(td), "fromstr_threshold": sorted(tp), "holds": ok})
+    if not ok:
+        R.violation("SIB-asn-boundary", ASN_FROMSTR, "Display prints AS numbers <= %s in decimal but FromStr accepts decimal numbers <= %s (both must be 4294967295): "
+                    "the displayed form of a boundary value does not parse back" % (sorted(td), sorted(tp)), F.loc(ASN_FROMSTR))
+
+
+SPLITS = re.compile(r"<impl str>::(split_once|rsplit_once)$")
+WRAP = re.compile(r"::(ok_or_else|ok_or|branch|map_err|ok|expect|unwrap|unwrap_unchecked|unwrap_or|unwrap_or_else|unwrap_or_default)$")
+
+
+def _all_operand_origins(b):
+    for bb in sorted(b.live_blocks()):
+        for st in b.stmts(bb):
+            if st[0] == "=":
+                rv = st[2]
+                ops = []
+                if rv[0] in ("use", "un"):
+                    ops = [rv[-1]] if rv[0] == "use" else [rv[2]]
+                elif rv[0] == "bin":
+                    ops = [rv[2], rv[3]]
+                elif rv[0] == "cast":
+                    ops = [rv[2]]
+                elif rv[0] == "agg":
+                    ops = list(rv[2])
+                for o in ops:
+                    yield b.origin(o)
+                if rv[0] in ("ref", "raw"):
+                    yield b.place_origin(rv[2])
+        t = b.term(bb)
+        if t[0] == "switch":
+            yield b.origin(t[1])
+        elif t[0] == "call":
+            for a in t[2]:
+                yield b.origin(a)
+    yield b.local_origin(0)
+
+
+def split_both_rule(F, R, fns):
+    """SPLIT-both: "no trailing or leading garbage is silently dropped": a parser that cuts its input with
+    split_once/rsplit_once must look at both halves.  A half that is never read (`let Some((_, next)) = rest.split_once(',')`)
+    is input text that is accepted without being examined."""
+    n = 0
+    for p in sorted(fns):
+        b = F.body(p)
+        if b is None or T.is_test_support(p):
+            continue
+        sites = [c for c in b.calls if not c.indirect and SPLITS.search(c.decl) and c.bb in b.live_blocks()]
+        if not sites:
+            continue
+        R.fn(p)
+        used = {c.bb: set() for c in sites}
+        for o in _all_operand_origins(b):
+            for nd in walk(o):
+                y = None
+                if nd[0] == "field" and nd[2] in ("0", "1") and isinstance(nd[1], tuple) and nd[1][0] == "field" and nd[1][2] == "0" \
+                        and isinstance(nd[1][1], tuple) and nd[1][1][0] == "downcast":
+                    y = nd[1][1][1]          # (opt as Some).0.k  /  (branch(..) as Continue).0.k
+                elif nd[0] == "field" and nd[2] in ("0", "1") and isinstance(nd[1], tuple) and nd[1][0] == "call" and re.search(r"::(expect|unwrap|unwrap_unchecked|unwrap_or|unwrap_or_else|unwrap_or_default)$", nd[1][1]):
+                    y = nd[1]                # opt.expect(..).k
+                if y is not None:
+                    for _ in range(6):
+                        if y[0] == "call" and len(y) > 5 and y[5] in used and SPLITS.search(y[1]):
+                            used[y[5]].add(nd[2])
+                            break
+                        if y[0] == "call" and WRAP.search(y[1]) and y[2]:
+                            y = y[2][0]
+                        elif y[0] in ("ref", "deref"):
+                            y = y[-1]
+                        else:
+                            break
+        for c in sites:
+            n += 1
+            ok = used[c.bb] >= {"0", "1"}
+            R.ob("SPLIT-both", "%s: both halves of %s are examined" % (short(p), c.decl.split("::")[-1]), ok, True,
+                 {"rule": "SPLIT-both", "fn": p, "loc": c.span.loc, "halves_read": sorted(used[c.bb]), "holds": ok})
+            if not ok:
+                R.violation("SPLIT-both", "%s/%s" % (p, c.decl.split("::")[-1]), "%s cuts its input with %s but never reads half %s: that part of the "
+                            "input is accepted without being examined (garbage silently dropped)" % (short(p), c.decl.split("::")[-1], sorted({"0", "1"} - used[c.bb])), c.span.loc)
+    R.floor("SPLIT-both", n, 3, "split_once/rsplit_once calls in the text parsers (ServiceAddr, IsdAsn, parse_socket_addr, parse_txt_payload)")
